@@ -24,12 +24,20 @@ class BoomBase(BaseException):
     pass
 
 
+class NonNote:
+    """Marker 'exception kind': at the failing position the callable does not raise - it hands back something that is no Note."""
+    values = [None, (60, 100), b"\x01\x02\x03\x04\x05\x06\x07\x08", 0]
+
+
 EXC_KINDS = [Boom, StopIteration, KeyError, BoomBase, GeneratorExit, RuntimeError, IndexError, ValueError, TypeError, AttributeError,
              ZeroDivisionError, OSError, AssertionError, LookupError, MemoryError, KeyboardInterrupt]
 
 
 def cell_of(n):
-    return [int(n.note), int(n.vel), int(n.module), int(n.ctl), int(n.val)]
+    try:
+        return [int(n.note), int(n.vel), int(n.module), int(n.ctl), int(n.val)]
+    except Exception:           # something that is no Note sits in the grid
+        return [-1, -1, -1, -1, -1]
 
 
 def contents(pat):
@@ -60,6 +68,8 @@ def run_history(api, rnd, tid, lines, tracks, attached, edits, prefill, fresh=Fa
         calls = ed["notes"]
         fail_at = ed["fail_at"]
         exc = ed.get("exc", Boom)
+        if exc is NonNote and fail_at is not None and fail_at >= len(calls):
+            exc = Boom          # (a failure behind the last supplied note can only be an exception)
         reuse = ed.get("reuse", ())          # positions (indices into calls) where the callable hands back an EXISTING note object
         inplace = ed.get("inplace", ())      # positions where the generator edits the note found in the WORKING array and yields it
         direct = ed.get("direct", ())        # positions where the generator puts the note into the working array itself, yielding nothing
@@ -73,6 +83,8 @@ def run_history(api, rnd, tid, lines, tracks, attached, edits, prefill, fresh=Fa
                     i = state["i"]
                     state["i"] += 1
                     k, c = calls[i]
+                    if fail_at == i and exc is NonNote:
+                        return NonNote.values[i % len(NonNote.values)]
                     if fail_at == i:
                         raise exc()
                     if i in reuse and not blind:          # leave the cell alone by returning the note that is already there
@@ -85,6 +97,9 @@ def run_history(api, rnd, tid, lines, tracks, attached, edits, prefill, fresh=Fa
             else:
                 def gen(p, new):
                     for i, (k, c) in enumerate(calls):
+                        if fail_at == i and exc is NonNote:
+                            yield (k - 1) // tracks, (k - 1) % tracks, NonNote.values[i % len(NonNote.values)]
+                            return          # (nothing later may put a proper note over it)
                         if fail_at == i:
                             raise exc()
                         if i in reuse and not blind:      # move an existing note object to cell k
@@ -106,7 +121,7 @@ def run_history(api, rnd, tid, lines, tracks, attached, edits, prefill, fresh=Fa
                             continue
                         ev.append(dict({"op": "cell", "k": k, "note": c}, **seen(p)))
                         yield (k - 1) // tracks, (k - 1) % tracks, mk(c)
-                    if fail_at == len(calls):
+                    if fail_at == len(calls) and exc is not NonNote:
                         raise exc()
                 r = pat.set_via_gen(gen)
         except BaseException as e:
@@ -166,7 +181,9 @@ def run(ctx):
             else:
                 rnd.shuffle(ks)
             notes = [(k, rcell()) for k in ks]
-        d = {"setter": setter, "notes": notes, "fail_at": fail_at, "exc": rnd.choice(EXC_KINDS)}
+        d = {"setter": setter, "notes": notes, "fail_at": fail_at, "exc": rnd.choice(EXC_KINDS + [NonNote, NonNote])}
+        if d["exc"] is NonNote and fail_at is not None and fail_at >= len(notes):
+            d["exc"] = Boom
         if rnd.random() < 0.35:
             d["reuse"] = set(rnd.sample(range(len(notes)), rnd.randrange(0, len(notes) + 1))) if notes else set()
         elif setter == "gen" and rnd.random() < 0.5:
